@@ -8,7 +8,9 @@ using namespace vf;
 
 struct PacketSpec
 {
-    uint8_t shape{0};  // 0 default (payload-less) packet, 1 packet with a recipe payload, 2 packet with a zero-length payload
+    uint8_t shape{0};  // 0 default (payload-less) packet, 1 packet with a recipe payload, 2 packet with a zero-length payload,
+                       // 3 packet whose payload carries an invalid type (set explicitly), 4 packet built from a message buffer
+                       //   whose typed payload fails validation (the library then stores an invalid-typed, zeroed payload)
     PacketRecipe r;
     uint8_t version{1};
     uint16_t dev{0};
@@ -52,6 +54,29 @@ static void fillFromSpec(lib::Packet& p, const PacketSpec& s)
     {
         static const uint8_t dummy = 0;
         p.setPayload(lib::Payload(lib::PayloadType(static_cast<lib::CmpHeader::MessageType>(s.r.messageType()), s.r.payloadTypeByte()), &dummy, 0));
+    }
+    else if (s.shape == 3)
+    {
+        // payload object present, bytes present, but the type is not a valid one (message type or payload type byte 0)
+        Bytes b = fillBytes(s.r.seed, 1 + s.r.len % 30);
+        uint32_t t = s.r.seed % 3 == 0 ? 0x0100u : s.r.seed % 3 == 1 ? 0x0020u : 0x0001u;
+        p.setPayload(lib::Payload(lib::PayloadType(t), b.data(), b.size()));
+    }
+    else if (s.shape == 4)
+    {
+        // a CAN message whose data length field exceeds the payload: Packet(msgType, data, size) keeps an invalid payload
+        wire::CanFields cf;
+        cf.dataLength = 40;
+        Bytes pl = wire::buildCan(cf, fillBytes(s.r.seed, 4));
+        wire::MsgHdr mh;
+        mh.timestamp = s.r.ts;
+        mh.idWord = s.r.ifId;
+        mh.flags = static_cast<uint8_t>(s.r.flags & ~0x4C);
+        mh.payloadType = wire::kPtCan;
+        mh.length = static_cast<uint16_t>(pl.size());
+        Bytes msg = wire::buildMessage(mh, pl);
+        lib::Packet built(lib::CmpHeader::MessageType::data, msg.data(), msg.size());
+        p.setPayload(built.getPayload());
     }
     if (s.shape != 0 || s.r.seed % 2)
     {
@@ -235,6 +260,8 @@ static Verdict runPacket(const Case& c, Info& info)
         info.tag("zero_length_payload_source");
     if (!before.hasPayload)
         info.tag("payload_less_source");
+    if (before.hasPayload && !before.valid)
+        info.tag("source_payload_has_invalid_type");
     if (c.relation == 1 || c.relation == 2 || c.relation == 4)
         info.tag("equal_looking_target");
     info.nontrivial = targetHadPayload || (before.hasPayload && before.payload.empty()) || c.relation == 1 || c.relation == 2 || c.relation == 4 || !before.hasPayload;
@@ -322,6 +349,11 @@ static Verdict runPayload(const Case& c, Info& info, P srcInit, P dstInit)
 static lib::Payload makeAsamPayload(const PacketSpec& s)
 {
     static const uint8_t dummy = 0;
+    if (s.shape >= 3)
+    {
+        Bytes b = fillBytes(s.r.seed, 1 + s.r.len % 30);
+        return lib::Payload(lib::PayloadType(s.shape == 3 ? 0x0100u : 0x0020u), b.data(), b.size());
+    }
     if (s.shape != 1)
         return lib::Payload(lib::PayloadType(static_cast<lib::CmpHeader::MessageType>(s.r.messageType()), s.r.payloadTypeByte()), &dummy, 0);
     return buildPayload(s.r);
@@ -349,7 +381,7 @@ static rc::Gen<PacketSpec> genSpec()
 {
     return rc::gen::exec([]() {
         PacketSpec s;
-        s.shape = *rc::gen::weightedElement<uint8_t>({{1, 0}, {5, 1}, {2, 2}});
+        s.shape = *rc::gen::weightedElement<uint8_t>({{1, 0}, {5, 1}, {2, 2}, {2, 3}, {1, 4}});
         s.r.kind = *range<uint8_t>(0, 7);
         s.r.msgType = *rc::gen::element<uint8_t>(1, 2, 3, 0xFF);
         s.r.ptype = *rc::gen::element<uint8_t>(0x20, 0x21, 0xFF);
@@ -385,7 +417,7 @@ static rc::Gen<Case> genCase(int)
         {
             c.dst = c.src;
             c.dst.r.kind = *range<uint8_t>(0, 7);
-            c.dst.shape = *rc::gen::element<uint8_t>(0, 1, 2, 2);
+            c.dst.shape = *rc::gen::element<uint8_t>(0, 1, 2, 2, 3);
             if (*range<int>(0, 1))
                 c.src.shape = 2;
         }
@@ -397,8 +429,8 @@ static void enumerate(int, const std::function<bool(const Case&)>& emit)
 {
     // all shape pairs x relations x operations for a small set of payload kinds
     for (uint8_t domain = 0; domain < 3; ++domain)
-        for (uint8_t srcShape = 0; srcShape < 3; ++srcShape)
-            for (uint8_t dstShape = 0; dstShape < 3; ++dstShape)
+        for (uint8_t srcShape = 0; srcShape < 5; ++srcShape)
+            for (uint8_t dstShape = 0; dstShape < 5; ++dstShape)
                 for (uint8_t relation = 0; relation < 5; ++relation)
                     for (uint8_t op = 0; op < 4; ++op)
                         for (uint8_t srcKind : {uint8_t(rkCan), uint8_t(rkLin), uint8_t(rkGeneric), uint8_t(rkCmStatus)})
@@ -441,7 +473,7 @@ int main(int argc, char** argv)
     prop.run = runCase;
     prop.enumerate = enumerate;
     prop.enumerationIsExhaustive = true;
-    prop.enumerationNote = "all combinations of {Packet, ASAM payload, TECMP payload} x source shape {payload-less, with payload, zero-length payload} x "
+    prop.enumerationNote = "all combinations of {Packet, ASAM payload, TECMP payload} x source shape {payload-less, with payload, zero-length payload, invalid-typed payload, payload rejected by validation} x "
                            "target shape x relation {independent, copy, copy with another payload type, self, copy with one header field changed} x {copy-construct, copy-assign, "
                            "move-construct, move-assign} x 4 source kinds x 2 target kinds x same / different header fields";
     return pbtMain(argc, argv, prop);
